@@ -358,7 +358,7 @@ theorem okSnt_okInfer {t : String} {d : Default} (h : okSnt t d = true) : okInfe
 
 theorem mergePresent_own_doc (p : Param) (d0 : String) (h : p.doc = some d0) :
     mergePresent { doc := some d0, typ := none, default := none } p = p := by
-  unfold mergePresent
+  unfold mergePresent mpDefault mpTyp mpDoc
   by_cases he : d0 = ""
   · simp [falsyDoc, h, he]
   · simp [falsyDoc, h, he]
